@@ -99,8 +99,25 @@ def allGroupOutputs (ha : Int) : List (α × List α) → R (List Bytes)
       | .error e => .error e
       | .ok ys => .ok (xs ++ ys)
 
+/-- size of the group of `Bs` so far (`len(groups.setdefault(B_scan, []))`) -/
+def groupLen (Bs : α) : List (α × List α) → Nat
+  | [] => 0
+  | (K, l) :: rest => if o.eq K Bs then l.length else groupLen Bs rest
+
+/-- `positions`: each address's scan key and its index `k` inside that key's group -/
+def positionsOf : List (α × α) → List (α × List α) → List (α × Nat)
+  | [], _ => []
+  | r :: rest, g => (r.1, groupLen o r.1 g) :: positionsOf rest (insertGroup o r.1 r.2 g)
+
+/-- `first[B_scan]`: number of keys of the groups that come before `B_scan`'s -/
+def groupOffset (Bs : α) : List (α × List α) → Nat
+  | [] => 0
+  | (K, l) :: rest => if o.eq K Bs then 0 else l.length + groupOffset Bs rest
+
 /-- `output_keys` (Python arm): keys = (private key, spends-a-p2tr), outpoints = their 36-byte
-serialisations, recipients = decoded addresses `(B_scan, B_m)` -/
+serialisations, recipients = decoded addresses `(B_scan, B_m)`.  The keys are derived group by group
+(groups by scan key, in order of first appearance, `k` counting inside a group) and handed back in
+the order of the addresses. -/
 def outputKeys (keys : List (Int × Bool)) (outpoints : List Bytes) (recips : List (α × α)) : R (List Bytes) :=
   match prvKeySum o keys with
   | .error e => .error e
@@ -113,7 +130,12 @@ def outputKeys (keys : List (Int × Bool)) (outpoints : List Bytes) (recips : Li
       | .ok h =>
         if (groupsOf o recips).any (fun g => g.2.length > Gen.Interactive.SP_K_MAX) then .error .value
         else if !(scalarOk o (h * a % o.n)) then .error .value
-        else allGroupOutputs o H (h * a % o.n) (groupsOf o recips)
+        else
+          match allGroupOutputs o H (h * a % o.n) (groupsOf o recips) with
+          | .error e => .error e
+          | .ok grouped =>
+            .ok ((positionsOf o recips []).map fun pos =>
+              grouped.getD (groupOffset o pos.1 (groupsOf o recips) + pos.2) [])
 
 /-! ## scanning -/
 
